@@ -408,4 +408,67 @@ theorem connect_renameNode (c : Cfg) (σ : Slice) (n : Nat) (l svc : String) (i 
             rw [hadd, abs_renameNode]
             exact eraseNames_addPort_label σ svc _ _ i
 
+/-! ### the validate step -/
+
+theorem eq_of_eraseSite {y z : Svc} (h : eraseSite y = eraseSite z) : ({ z with site := y.site } : Svc) = y := by
+  cases y; cases z
+  simp only [eraseSite, Svc.mk.injEq] at h ⊢
+  obtain ⟨h1, _, h3, h4, h5, h6, h7⟩ := h
+  exact ⟨h1.symm, trivial, h3.symm, h4.symm, h5.symm, h6.symm, h7.symm⟩
+
+theorem zip_write {α : Type} (f : α → Svc) (upd : α → Option String → α)
+    (hupd : ∀ a x, f (upd a x) = { f a with site := x }) (X : List α) (Y : List Svc)
+    (h : Y.map eraseSite = (X.map f).map eraseSite) :
+    ((X.zip Y).map fun p => upd p.1 p.2.site).map f = Y := by
+  induction X generalizing Y with
+  | nil =>
+    cases Y with
+    | nil => rfl
+    | cons y ys => simp at h
+  | cons a as ih =>
+    cases Y with
+    | nil => simp at h
+    | cons y ys =>
+      simp only [List.map_cons, List.cons.injEq] at h
+      simp only [List.zip_cons_cons, List.map_cons, hupd, ih ys h.2, List.cons.injEq, and_true]
+      exact eq_of_eraseSite h.1
+
+theorem writeSites_nodes (σ : Slice) (l : List Svc) : (writeSites σ l).nodes = σ.nodes := rfl
+theorem writeSites_ifaces (σ : Slice) (l : List Svc) : (writeSites σ l).ifaces = σ.ifaces := rfl
+
+/-- **the validate step of a history is `validate` on what the slice is**: the slice afterwards, seen through `abs`, is the
+topology `validate` returns - also when it fails -/
+theorem abs_validateStep (c : Cfg) (σ : Slice) :
+    (validateStep c σ).1 = (validate c (abs σ)).1 ∧ abs (validateStep c σ).2 = (validate c (abs σ)).2 := by
+  refine ⟨rfl, ?_⟩
+  obtain ⟨he, hn, hs⟩ := validate_frame c (abs σ)
+  show abs (writeSites σ (validate c (abs σ)).2.svcs) = (validate c (abs σ)).2
+  generalize (validate c (abs σ)).2 = r at he hn hs ⊢
+  have hlen : r.svcs.length = σ.owned.length + σ.svcs.length := by
+    have := congrArg List.length hs
+    simpa [abs] using this
+  have hsplit : r.svcs = r.svcs.take σ.owned.length ++ r.svcs.drop σ.owned.length := (List.take_append_drop _ _).symm
+  have hs' : (r.svcs.take σ.owned.length ++ r.svcs.drop σ.owned.length).map eraseSite =
+      (σ.owned.map (ownedAbs σ)).map eraseSite ++ (σ.svcs.map (svcAbs σ)).map eraseSite := by
+    rw [← hsplit, hs]; simp [abs]
+  rw [List.map_append] at hs'
+  have hl1 : ((r.svcs.take σ.owned.length).map eraseSite).length = ((σ.owned.map (ownedAbs σ)).map eraseSite).length := by
+    simp [List.length_take]; omega
+  obtain ⟨h1, h2⟩ := List.append_inj hs' hl1
+  have e1 := zip_write (ownedAbs σ) (fun o x => { o with site := x }) (fun _ _ => rfl) σ.owned _ h1
+  have e2 := zip_write (svcAbs σ) (fun s x => { s with site := x }) (fun _ _ => rfl) σ.svcs _ h2
+  have ho : (writeSites σ r.svcs).owned.map (ownedAbs (writeSites σ r.svcs)) = r.svcs.take σ.owned.length := by
+    have : ownedAbs (writeSites σ r.svcs) = ownedAbs σ := funext fun o => ownedAbs_congr rfl rfl o
+    rw [this]; exact e1
+  have hv : (writeSites σ r.svcs).svcs.map (svcAbs (writeSites σ r.svcs)) = r.svcs.drop σ.owned.length := by
+    have : svcAbs (writeSites σ r.svcs) = svcAbs σ := funext fun s => svcAbs_congr rfl rfl s
+    rw [this]; exact e2
+  unfold abs
+  rw [ho, hv, List.take_append_drop]
+  cases r with
+  | mk rexp rnodes rsvcs =>
+    simp only at he hn ⊢
+    simp only [Topo.mk.injEq, and_true]
+    exact ⟨he.symm, by rw [hn]; rfl⟩
+
 end FimVerif.Validate.Hist
